@@ -15,6 +15,8 @@ def okEvent2 (s : WState α) : Event α → Prop
   | .del _ => s.committed = [] ∨ s.metas.opstamp < s.stamper
   | .batch items =>
       s.committed = [] ∨ ∀ del ∈ batchDels (stampItems s.stamper items), s.metas.opstamp < del.op
+  | .stamp _ => False
+  | .publish _ => False
   | _ => True
 
 def okRun2 (s : WState α) : List (Event α) → Prop
@@ -211,6 +213,8 @@ theorem inv_step2 (s s' : WState α) (t : SpecState α) (e : Event α) (r : Nat)
         · simp only [Option.some.injEq, Prod.mk.injEq] at hstep
           obtain ⟨rfl, _⟩ := hstep
           exact ⟨winv_congr s _ _ _ hw rfl rfl rfl rfl rfl rfl rfl rfl rfl, minv_end0 s hm k⟩
+  | stamp op => exact hok.elim
+  | publish k => exact hok.elim
 
 theorem inv_run2 (s s' : WState α) (t : SpecState α) (es : List (Event α))
     (hw : WInv s t.pending t.committed) (hm : MInv s) (hok : okRun2 s es) (hrun : run s es = some s') :
